@@ -37,7 +37,7 @@ def bools (j : Json) (k : String) : Except String (List Bool) := do
 
 def encOpts (xs : List (Option α)) : Json := Json.arr (xs.map (encOpt α)).toArray
 
-def encExcept {β : Type} (enc : β → Json) (r : Except String β) : Json :=
+def encExceptFS {β : Type} (enc : β → Json) (r : Except String β) : Json :=
   match r with
   | .ok v => enc v
   | .error e => Json.mkObj [("raise", Json.str e)]
@@ -64,10 +64,10 @@ def flakeStats : Op := fun j => do
     Json.mkObj [
       ("idx", encNats idx),
       ("never", encBools nev),
-      ("tsol_states", encExcept (encOpts α) (solidificationTimes true thr solThr mask t Xs sTsol grp)),
-      ("tsol_stats", encExcept (encOpts α) (solidificationTimes false thr solThr mask t Xs sTsol grp)),
-      ("count_states", encExcept encNats (sigmaCounter ran times thr solThr true t Xs sTnuc sTsol)),
-      ("count_stats", encExcept encNats (sigmaCounter ran times thr solThr false t Xs sTnuc sTsol))]
+      ("tsol_states", encExceptFS (encOpts α) (solidificationTimes true thr solThr mask t Xs sTsol grp)),
+      ("tsol_stats", encExceptFS (encOpts α) (solidificationTimes false thr solThr mask t Xs sTsol grp)),
+      ("count_states", encExceptFS encNats (sigmaCounter ran times thr solThr true t Xs sTnuc sTsol)),
+      ("count_stats", encExceptFS encNats (sigmaCounter ran times thr solThr false t Xs sTnuc sTsol))]
   return Json.mkObj [
     ("tnuc_states", encOpts α (nucleationTimes true mask t Xs sTnuc grp)),
     ("tnuc_stats", encOpts α (nucleationTimes false mask t Xs sTnuc grp)),
